@@ -190,3 +190,83 @@ class SyncHB_report_as_failed:
             "same-slot": bid == old.bracket_id and slot.rung_index == old.slot_in_rung.rung_index and slot.level == old.slot_in_rung.level and slot.slot_index == old.slot_in_rung.slot_index and slot.trial_id == old.slot_in_rung.trial_id,
             "reported-as-failed": is_nan(slot.metric_val),
         }
+
+
+# -- a job that reaches its rung level hands its result to the bracket exactly once and is PAUSED (it may be promoted later,
+#    so it must keep its check-point: never STOP); before the level it continues; a trial that holds no slot is stopped ---------
+
+
+@contract("iface:SyncBracketManager.level_to_prev_level")
+class I_sbm_level_to_prev_level:
+    params = dict(self=None, bracket_id=None, level=None)
+    returns = Int
+
+    def ensures(old, s, result):
+        return {"below": 0 <= result and result < old.level}
+
+
+@contract("iface:SyncSearcher.on_trial_result")
+class I_ss_on_trial_result:
+    params = dict(self=None, trial_id=None, config=None, result=None, update=None)
+
+
+declare_class(
+    "SyncHBFull",
+    SYNC_HB + ":SynchronousHyperbandScheduler",
+    dict(
+        bracket_manager=Abstract("SyncBracketManager"),
+        searcher=Abstract("SyncSearcher"),
+        _trials_checkpoints_can_be_removed=List(Int),
+        _trial_to_pending_slot=ADict(Int, Tup(Int, Obj("SlotInRung"))),
+        _trial_to_config=ADict(Int, Rec(lr=Real)),
+        metric=Lit("loss"),
+        _resource_attr=Lit("epoch"),
+        searcher_data=Enum("rungs", "all"),
+    ),
+)
+
+
+@contract(SYNC_HB + ":SynchronousHyperbandScheduler.on_trial_result", props=("C05", "C20", "C13"))
+class SyncHB_on_trial_result:
+    params = dict(self=Obj("SyncHBFull"), trial=Obj("Trial"), result=Rec(loss=NanRealT, epoch=Int))
+    ghost = GHOST
+    unbounded = False
+    shapes = [{"self._trial_to_pending_slot": n, "self._trial_to_config": n, "*": 0} for n in (0, 1, 2)]
+    raises = {"AssertionError": "skipped_level"}
+
+    def requires(s):
+        ks = list(s.self._trial_to_pending_slot.keys())
+        vs = list(s.self._trial_to_pending_slot.values())
+        cs_ = list(s.self._trial_to_config.keys())
+        return {
+            "slot-belongs-to-its-trial": forall(range(0, len(ks)), lambda i: vs[i][1].trial_id == ks[i] and vs[i][1].level >= 1 and cs_[i] == ks[i]),
+            "resource": s.result["epoch"] >= 1,
+        }
+
+    def skipped_level(old, s):
+        # the only legal refusal: the training script skipped the rung level
+        ks = list(old.self._trial_to_pending_slot.keys())
+        vs = list(old.self._trial_to_pending_slot.values())
+        return {"only-when-a-rung-level-was-skipped": exists(range(0, len(ks)), lambda i: ks[i] == old.trial.trial_id and old.result["epoch"] > vs[i][1].level)}
+
+    def ensures(old, s, result):
+        tid = old.trial.trial_id
+        ks = list(old.self._trial_to_pending_slot.keys())
+        vs = list(old.self._trial_to_pending_slot.values())
+        calls = [e for e in s.G.log if e[0] == "SyncBracketManager.on_result"]
+        pending = exists(range(0, len(ks)), lambda i: ks[i] == tid)
+        if not pending:
+            return {"no-slot-means-stop": result == "STOP", "nothing-reported": len(calls) == 0}
+        lvl = [vs[i][1].level for i in range(len(ks)) if ks[i] == tid][0]
+        bid = [vs[i][0] for i in range(len(ks)) if ks[i] == tid][0]
+        if old.result["epoch"] < lvl:
+            return {"continues-below-its-level": result == "CONTINUE", "nothing-reported": len(calls) == 0, "still-pending": tid in s.self._trial_to_pending_slot}
+        if len(calls) != 1:
+            return {"reported-to-the-bracket-exactly-once": False}
+        rb, slot = calls[0][1]
+        return {
+            "reported-to-the-bracket-exactly-once": True,
+            "paused-at-its-level-never-stopped": result == "PAUSE",
+            "own-slot-with-the-reported-value": rb == bid and slot.trial_id == tid and slot.level == lvl and (is_nan(slot.metric_val) if is_nan(old.result["loss"]) else req(slot.metric_val, old.result["loss"])),
+            "no-longer-pending": tid not in s.self._trial_to_pending_slot,
+        }
